@@ -133,7 +133,8 @@ theorem inv_reachable (c : Cfg) (ops : List (Op τ)) {t' : Table τ}
 /-! ## `SetFuncName`: case analysis, unreachable rename, soundness of the returned name -/
 
 /-- the outcomes of `SetFuncName`, in the order of the Go code (since 78f76aa with the -autoname record:
-a call whose type list is bound to the renaming of this very call name is that call again) -/
+a call whose type list is bound to the renaming of this very call name is that call again; since 4422487 a
+name bound to other types that `nameOf` did not find is always a conflict) -/
 theorem setFuncName_cases (c : Cfg) (t : Table τ) (fn : Name) (typs : List τ) :
     (∃ f, nameOf R t typs = some f ∧
       ((f = fn ∧ setFuncName R c t fn typs = .ok (fn, t)) ∨
@@ -142,10 +143,9 @@ theorem setFuncName_cases (c : Cfg) (t : Table τ) (fn : Name) (typs : List τ) 
        (f ≠ fn ∧ c.dedup = false ∧ ¬ (c.autoname = true ∧ t.autonamedFrom f = fn) ∧
           setFuncName R c t fn typs = .error (.duplicate f fn)))) ∨
     (nameOf R t typs = none ∧ ∃ ts, t.lookup fn = some ts ∧
-      ((eqL R ts typs = true ∧ setFuncName R c t fn typs = .ok (fn, t)) ∨
-       (eqL R ts typs = false ∧ c.autoname = true ∧
+      ((c.autoname = true ∧
           setFuncName R c t fn typs = .ok (recordAutoname (getFuncName R c t typs) fn)) ∨
-       (eqL R ts typs = false ∧ c.autoname = false ∧ setFuncName R c t fn typs = .error (.conflict fn)))) ∨
+       (c.autoname = false ∧ setFuncName R c t fn typs = .error (.conflict fn)))) ∨
     (nameOf R t typs = none ∧ t.lookup fn = none ∧ setFuncName R c t fn typs = .ok (fn, t.insert fn typs)) :=
   setFuncName_cases' R c t fn typs
 
